@@ -43,8 +43,12 @@ func (f *Frame) call(x *ssa.Call, pc string, st *State) {
 		f.setCall(x, f.callStatic(x, fv.F.fn, args, fv.F.bindings, pc, st))
 		return
 	}
-	// dynamic call: case split over candidates
 	vc.safety(x.Pos(), pc, "nilfunc", not(fmt.Sprintf("(= %s 0)", fv.T)), "call of nil function value")
+	if fc := vc.eng.functypeContract(c.Value.Type()); fc != nil {
+		f.setCall(x, f.callFunctype(x, fc, c.Value.Type(), args, pc, st))
+		return
+	}
+	// dynamic call: case split over candidates
 	cands := vc.eng.candidates(c.Value.Type())
 	if len(cands) == 0 {
 		vc.assum[fmt.Sprintf("dynamic call of user-supplied %s: assumed to write only through its pointer arguments", c.Value.Type())] = true
@@ -231,17 +235,25 @@ func (vc *VC) atCall(f *Frame, callee string, args []SV, pc string, st *State, p
 		if ac.N >= 0 && ac.N != n {
 			continue
 		}
+		if ac.Clause.Tier == "thorough" && vc.eng.tier != "thorough" {
+			continue
+		}
 		env := vc.top.env(st, vc.top.entrySt, nil)
 		for j, a := range args {
 			env.roots[fmt.Sprintf("arg%d", j)] = a
 		}
 		t, err := env.eval(ac.Clause.Expr)
 		name := vc.oblName("at-call", fmt.Sprintf("%s#%d/%d%s", callee, n, i, labelSuffix(ac.Clause.Labels)))
+		if err != nil && strings.Contains(ac.Clause.Text, "phi:") && !f.inLoopBody() {
+			continue // the assertion mentions loop variables: it applies to calls inside that loop only
+		}
 		if err != nil {
 			vc.failObl(name, ac.Clause, err)
 			continue
 		}
 		vc.addObl(&Obl{Name: name, Kind: "at-call", Labels: ac.Clause.Labels, Pos: vc.eng.fset.Position(pos), PC: pc, Goal: t, Clause: ac.Clause.Text, Tier: ac.Clause.Tier})
+		// a checked assertion is known from here on
+		vc.assume(pc, t)
 	}
 }
 
@@ -557,6 +569,61 @@ func mentionsResult(s *Sexp, results *types.Tuple) bool {
 	}
 	for _, c := range s.List {
 		if mentionsResult(c, results) {
+			return true
+		}
+	}
+	return false
+}
+
+// callFunctype applies the contract of a named function type (a callback the code is handed).
+func (f *Frame) callFunctype(x *ssa.Call, fc *Contract, t types.Type, args []SV, pc string, st *State) SV {
+	vc := f.vc
+	short := ifaceShort(t)
+	sig := t.Underlying().(*types.Signature)
+	vc.atCall(f, short, args, pc, st, x.Pos())
+	if !fc.Pure {
+		vc.declareIface(t)
+		var parts []string
+		for _, a := range args {
+			tt := a.T
+			if tt == "" {
+				tt = vc.ptrTerm(a)
+			}
+			parts = append(parts, tt)
+		}
+		ev := fmt.Sprintf("(%s.call %s)", short, strings.Join(parts, " "))
+		if len(parts) == 0 {
+			ev = fmt.Sprintf("(%s.call true)", short)
+		}
+		trn := "tr." + short
+		cur := vc.ghostTerm(st, trn, "Tr."+short, "")
+		st.ghost[trn] = vc.def(sanitize(trn), "Tr."+short, fmt.Sprintf("(cons.%s %s %s)", short, ev, cur))
+	}
+	for _, m := range fc.Modifies {
+		if strings.HasPrefix(m, "*arg") {
+			var k int
+			fmt.Sscanf(m, "*arg%d", &k)
+			if k < len(args) && args[k].P != nil {
+				f.havocPtr(st, args[k].P, pc)
+			}
+			continue
+		}
+		env := &Env{vc: vc, roots: map[string]SV{}, cur: st, old: st, con: fc}
+		f.havocModifies(env, m, pc, st, x.Pos())
+	}
+	vc.assum[fmt.Sprintf("contract of callback type %s (assumed of every function value of that type handed to the code)", short)] = true
+	return f.freshResults(sig.Results(), pc, st, "ret_"+sanitize(short))
+}
+
+// inLoopBody reports whether the top frame is currently executing inside some loop (invariant-based or unrolled).
+func (f *Frame) inLoopBody() bool {
+	top := f.vc.top
+	return top.curBlock != nil && top.blockInLoop(top.curBlock)
+}
+
+func (f *Frame) blockInLoop(b *ssa.BasicBlock) bool {
+	for _, li := range f.loops {
+		if li.blocks[b] {
 			return true
 		}
 	}
